@@ -112,6 +112,15 @@ def run(case, ctx):
                 continue
             if multi:
                 ctx.nontrivial(key, metric, thr)
+    if refa.ndim >= 2 and i % 3 == 0:
+        for metric, thr in (("IOU", 0.3), ("DSC", 0.5)):
+            ctx.count("evaluations")
+            ctx.count("C14.mixed_layout_calls")
+            try:
+                with pan.quiet():
+                    pan.make_matcher({"kind": "merge", "metric": metric, "thr": thr}).match_instances(UnmatchedInstancePair(np.ascontiguousarray(pred), np.asfortranarray(refa)))
+            except Exception:  # noqa: BLE001
+                pass
     # long-lived matcher objects and in-place reused buffers (same array objects, new content): every call judged
     store = ctx.__dict__.setdefault("_reuse", {"matchers": {}, "bufs": {}})
     key_b = (pred.shape, str(pred.dtype))
